@@ -6,6 +6,8 @@ import (
 	"context"
 	"fmt"
 	"net"
+	"os"
+	"path/filepath"
 	"strings"
 	"time"
 )
@@ -83,6 +85,13 @@ func c11StalledStop(s *sc) {
 	s.logf("Stop returned after %.2fs: %v", time.Since(t0).Seconds(), stopErr)
 	if conn != nil {
 		conn.Close()
+	}
+	// the files a restart will load: the stop must have left the notification-log snapshot behind (the silences one too)
+	for _, f := range []string{"nflog", "silences"} {
+		if fi, err := os.Stat(filepath.Join(in.Dir, "data", f)); err != nil || fi.Size() == 0 {
+			s.logf("after Stop the snapshot file data/%s is missing or empty (%v)", f, err)
+			s.count("snapshot file missing or empty after the stop: " + f)
+		}
 	}
 	s.must(in.Start(), "start again on the same data dir")
 	after, err := in.GetSilences()
